@@ -75,11 +75,44 @@ def run_properties(props, args, seed, scratch, manifest):
         slow_skipped = []
     smt_obls = [o for o in obls if o["backend"] == "smt"]
     results = {}
+    # one job per query: an obligation whose goal is a conjunction comes as several parts
+    jobs = []
+    for o in smt_obls:
+        parts = o.get("parts") or [o["smt"]]
+        for i, smt in enumerate(parts):
+            jobs.append((o, i, smt, len(parts)))
+    partial = {}
     with cf.ThreadPoolExecutor(max_workers=int(os.environ.get("VERIF_JOBS", "12"))) as ex:
-        futs = {ex.submit(chk.discharge, o, scratch, timeout, seed, thorough): o for o in smt_obls}
+        futs = {ex.submit(chk.discharge1, o, smt, (".p%d" % (i + 1)) if n > 1 else "", scratch, timeout, seed, thorough): (o, i) for o, i, smt, n in jobs}
         for fu in cf.as_completed(futs):
-            o = futs[fu]
-            results[o["name"]] = fu.result()
+            o, i = futs[fu]
+            partial.setdefault(o["name"], {})[i] = fu.result()
+    for o in smt_obls:
+        rs = partial[o["name"]]
+        order = sorted(rs)
+        tot = sum(rs[i]["time"] for i in order)
+        pick = None
+        for i in order:  # a refuted part decides; otherwise the first undecided one
+            if rs[i]["answer"] == "sat":
+                pick = (i, rs[i])
+                break
+        if pick is None:
+            for i in order:
+                if rs[i]["answer"] != "unsat":
+                    pick = (i, rs[i])
+                    break
+        if pick is None:
+            pick = (order[-1], rs[order[-1]])
+        r = dict(pick[1])
+        r["time"] = tot
+        if len(order) > 1:
+            r["parts"] = len(order)
+            r["decisive_part"] = pick[0] + 1
+            ans = {}
+            for i in order:
+                ans.update(rs[i]["answers"])
+            r["contradiction"] = any(rs[i]["contradiction"] for i in order)
+        results[o["name"]] = r
     known = load_known()
     baseline = load_baseline()
     exceptions = load_exceptions()
@@ -175,7 +208,10 @@ def run_properties(props, args, seed, scratch, manifest):
             tail = "" if confirmed else " no-failing-input-found"
             print("VIOLATION property=%s replay=%s%s" % (p, rp, tail))
             if args.verbose:
-                print("   ", o["name"], "--", why)
+                extra = ""
+                if r is not None and r.get("decisive_part"):
+                    extra = " [part %d of %d]" % (r["decisive_part"], r.get("parts", 0))
+                print("   ", o["name"], "--", why + extra)
         if nviol:
             rc = 1
         fns = [f for f in out["functions"] if p in (f.get("props") or [])]
